@@ -20,6 +20,7 @@ import numpy as np
 from .c07 import call, gen_grid, gen_member_values, pick_val
 from .c07_synth import (Spec, Transcription, decode, env_at, eval_path, eval_point, interp_lin, syn_class)
 from .common import fr, quiet_fd, same
+from .translate_c06 import gen_readback
 
 INF = float("inf")
 
@@ -705,11 +706,14 @@ def run(c):
         "harness on trajectories decoded through state_vector(); how the environment is built is C01/C15",
         "path objective is scalar and path-constraint expressions/sizes are those of member 0 (documented "
         "assumption of the code); Timeseries bound values are finite",
+        "source translation (harness/translate_c06.py): the read-back block of OptimizationProblem.optimize() is "
+        "re-read on every run through the closed table in the translator's header (trusted) and proved equal to "
+        "C06.readbackModel, for which `objective_value` / `solver_output` always belong to the latest solve",
         "model precondition: the bound of a scalar (size 1) point constraint is a scalar or a one-element array; "
         "transcribe() does not shape-check longer arrays there (the solver call then fails on the length of lbg: a "
         "late crash, not a wrong answer)",
     ]
-    c.prove()
+    c.prove(extra=gen_readback(c))
     stream_malformed(c)
     probe_f6(c)
     stream_main(c, c.n(120, 2500))
